@@ -32,7 +32,7 @@ T = 'chainables.tree'
 
 
 def run(ctx: Ctx):
-  for r in (r1, r2, r3, r4, r5, r6, r7, r8, r9, r10, r11, r12, r13, r14, r15):
+  for r in (r1, r2, r3, r4, r5, r6, r7, r8, r9, r10, r11, r12, r13, r14, r15, r16):
     ctx.guard(r)
 
 
@@ -759,10 +759,46 @@ def r15(ctx: Ctx):
   ctx.floor(rule, 1, n)
 
 
+def r16(ctx: Ctx):
+  rule = 'R-C18-16'
+  ctx.rule(rule, '"a copying set leaves the input untouched ... and returns the tree with the values stored": an immutable node is'
+           ' copied by rebuilding it from the LIST of its (updated) items. The constructor used for that takes one iterable —'
+           ' the builtin `tuple` (or list): in tree.py a name that is later CALLED to rebuild a container is bound to a'
+           ' builtin container type, never to `type(<node>)`, and `type(<node>)(...)` is not called directly. The dynamic'
+           ' type of a tuple node may be a named tuple (or another subclass with its own signature): `type(node)([items])`'
+           ' raises for it, so every copying set / apply through such a node fails where it used to work')
+  mi = ctx.repo.module(T)
+  fns = list(mi.functions.values()) + [m_ for c in mi.classes.values() for m_ in c.methods.values()]
+  n = 0
+  for fi in fns:
+    called = {c.func.id for c in ast.walk(fi.node) if isinstance(c, ast.Call) and isinstance(c.func, ast.Name)}
+    for x in ast.walk(fi.node):
+      if isinstance(x, ast.Call) and isinstance(x.func, ast.Call) and unparse(x.func.func) == 'type':
+        n += 1
+        ctx.fail(rule, fi, f'{fi.qualname}: containers are rebuilt with a builtin container type',
+                 f'`{unparse(x)[:60]}` constructs the dynamic type of a node from its items: a named-tuple node (fields as'
+                 ' positional parameters) cannot be built from one list — the copying set raises TypeError', node=x)
+      if isinstance(x, ast.Assign) and len(x.targets) == 1 and isinstance(x.targets[0], ast.Name) and x.targets[0].id in called \
+          and not isinstance(x.value, ast.Constant):
+        n += 1
+        what = f'{fi.qualname}: `{x.targets[0].id}` (called to rebuild a container) is a builtin container type'
+        if isinstance(x.value, ast.Name) and x.value.id in ('tuple', 'list', 'dict', 'frozenset', 'set'):
+          ctx.ok(rule, fi, what, x)
+        elif isinstance(x.value, ast.Call) and unparse(x.value.func) == 'type':
+          ctx.fail(rule, fi, what,
+                   f'`{unparse(x)}`: the node is rebuilt with its own dynamic type, called with ONE list of items: a named'
+                   ' tuple takes its fields as separate arguments, so copy_and_set / apply through such a node raises', node=x)
+        else:
+          ctx.info(rule, fi, what + f' (bound to `{unparse(x.value)[:40]}`)')
+  ctx.floor(rule, 1, n)
+
+
 from mlmverif.selfcheck import B, OK  # noqa: E402
 
 _F = 'chainables/tree.py'
 VARIANTS = [
+    B('tuple-node-rebuilt-with-its-dynamic-type', 'chainables/tree.py',
+      "        container_maker = tuple\n", "        container_maker = type(tree)\n", 'R-C18-16'),
     B('keys-shortcut-returns-the-configured-paths', 'chainables/tree.py',
       "  def keys(self):\n    return tuple(k for k in self)", "  def keys(self):\n    if self.key_paths is not None:\n      return tuple(self.key_paths)\n    return tuple(k for k in self)", 'R-C18-14'),
     B('append-guarded-by-the-kind-of-the-original', 'chainables/tree.py',
